@@ -4,8 +4,8 @@ CONSTANTS
   Paths = {"p", "q"}
   MaxTs = 3
   WithDeletes = FALSE
-  WithSuppression = FALSE
-  Mutant = "snapshot"
+  WithSuppression = TRUE
+  Mutant = "none"
 INVARIANTS FeedFaithful NothingSilent
 PROPERTIES AllReturn
 CHECK_DEADLOCK FALSE
